@@ -186,6 +186,21 @@ def gen_e1(tape, tier="quick", *, allow_pull=True, allow_cycles=True, allow_dela
                               allow_integrating=allow_integrating)
             add_link(src, ci, chain)
 
+    # diamond through a pull-based component: one consumer reads it twice with different chains
+    if allow_pull and n_pull and pull_fanout and tape.chance(1, 5):
+        pulls_pos = [p for p in range(len(order)) if comps[order[p]]["kind"] == "pull"]
+        qp = pulls_pos[tape.draw(len(pulls_pos))]
+        later = [order[p] for p in range(qp + 1, len(order)) if comps[order[p]]["kind"] == "sim"]
+        if later and not (comp_upstream_kinds(order[qp]) & {"avg", "sum", "delay_pull"}):
+            cons = later[tape.draw(len(later))]
+            for _ in range(2):
+                ch = []
+                if tape.chance(1, 2) and allow_delay:
+                    ch.append({"kind": "delay_fixed", "d": tape.choice([1, 2, 3, 5, 8])})
+                if tape.chance(1, 3):
+                    ch.insert(tape.draw(len(ch) + 1), gen_adapter(tape, PASS))
+                add_link(order[qp], cons, ch)
+
     # cycles: back edges carrying a delay
     max_steps = sum(max(c["steps"]) for c in comps if c["kind"] == "sim")
     cycles = []
